@@ -111,7 +111,7 @@ theorem getFeeRatio_none_iff (rs : List Ratio) (pd fd : Denom) :
 /-- Under the guards the chain enforces, `ApplyToLoosely` returns `⌈price·fee/ratioPrice⌉`. -/
 theorem applyToLoosely_eq_spec {r : Ratio} {price : Coin} (hd : r.pd = price.1)
     (hp : 0 ≤ price.2) (hpa : 0 < r.pa) (hfa : 0 ≤ r.fa)
-    (hfit : fits256 (price.2 * r.fa) = true) :
+    (hfit : fits256 (ceilDiv (price.2 * r.fa) r.pa) = true) :
     applyToLoosely r price = .ok (ratioFeeSpec r price.2) := by
   obtain ⟨a, rd, hok, hceil, _, _⟩ := C19.applyLoosely_is_ceil hp hfa hpa hfit
   unfold applyToLoosely
@@ -120,13 +120,16 @@ theorem applyToLoosely_eq_spec {r : Ratio} {price : Coin} (hd : r.pd = price.1)
     isCeilDiv_unique hpa hceil (ceilDiv_isCeil _ hpa)
   rw [this]
 
-/-- … and panics exactly when the product needs more than 256 bits. -/
+/-- … and is refused exactly when the fee itself needs more than 256 bits (since the repair of
+`applyLooselyTo`; before it the product was the limit). -/
 theorem applyToLoosely_overflow {r : Ratio} {price : Coin} (hd : r.pd = price.1)
-    (hpa : 0 < r.pa) (hfit : fits256 (price.2 * r.fa) = false) :
-    applyToLoosely r price = .error .overflow := by
-  unfold applyToLoosely Fees.applyLooselyTo mul256
-  have h0 : ¬ r.pa = 0 := by omega
-  simp [hd, h0, hfit, bind, Except.bind, throw, throwThe, MonadExceptOf.throw]
+    (hp : 0 ≤ price.2) (hpa : 0 < r.pa) (hfa : 0 ≤ r.fa)
+    (hfit : fits256 (ceilDiv (price.2 * r.fa) r.pa) = false) :
+    ∃ e, applyToLoosely r price = .error e := by
+  obtain ⟨e, he⟩ := (C19.applyLoosely_fails_iff hp hfa hpa).mpr hfit
+  refine ⟨e, ?_⟩
+  unfold applyToLoosely
+  simp [hd, he]
 
 theorem ratioFeeSpec_nonneg {r : Ratio} {p : Int} (hp : 0 ≤ p) (hpa : 0 < r.pa) (hfa : 0 ≤ r.fa) :
     0 ≤ ratioFeeSpec r p :=
